@@ -143,10 +143,13 @@ def signature_cases(draw):
         "kwopt": draw(st.integers(0, 1)), "varkw": draw(st.booleans()),
     }
     names = ["p%d" % i for i in range(spec["req"] + spec["opt"])] + ["k0", "k1", "zz", "args", "rest"]
+    # arguments are JSON values or, one time in six, a bean the class translator builds on the server (a Decimal, a Fraction)
+    values = gen.pick(gen.json_values(3), gen.json_values(3), gen.json_values(3), gen.json_values(3), gen.json_values(3),
+                      st.sampled_from([{"__jsonclass__": ["decimal.Decimal", ["1.5"]]}, {"__jsonclass__": ["fractions.Fraction", [1, 3]]}]))
     if draw(st.booleans()):
-        params = draw(st.lists(gen.json_values(3), max_size=6))
+        params = draw(st.lists(values, max_size=6))
     else:
-        params = draw(st.dictionaries(st.sampled_from(names), gen.json_values(3), max_size=6))
+        params = draw(st.dictionaries(st.sampled_from(names), values, max_size=6))
     return {"spec": spec, "params": params, "version": draw(st.sampled_from([1.0, 2.0])),
             "via": draw(st.sampled_from(["function", "instance"]))}
 
@@ -485,6 +488,8 @@ EXC_CLASSES = [
     PermissionError, TimeoutError, BufferError, EOFError, OverflowError, UnicodeError, ConnectionError,
     FileNotFoundError, ReferenceError, UserError, UserValueError, DeepUserError, TypeError, UserTypeError, FloatingPointError,
     CodedError, StatusError,
+    # exceptions the interpreter itself raises with a location attached (their formatted form has several lines)
+    SyntaxError, IndentationError,
 ]
 
 
@@ -548,6 +553,13 @@ def oracle_exception(case):
     def inner(level):
         if level > 0:
             return inner(level - 1)
+        if cls in (SyntaxError, IndentationError) and case["noargs"]:
+            # a genuine one, as a method meets it when it evaluates text it was given
+            try:
+                compile("1 +" if cls is SyntaxError else "if x:\npass", "<argument>", "exec")
+            except SyntaxError as genuine:
+                raised.append(genuine)
+                raise
         ex = cls() if case["noargs"] and not library else cls(case["message"])
         raised.append(ex)
         raise ex
@@ -576,7 +588,11 @@ def oracle_exception(case):
     if cls.__name__ not in msg:
         fail("C05/message", "message %r does not name the exception type %s" % (msg, cls.__name__), o)
     # "names the text": white space at the ends of the text is the message's to lay out
-    if str(ex).strip() not in msg:
+    text = str(ex).strip()
+    if isinstance(ex, SyntaxError) and getattr(ex, "msg", None) and str(ex.msg) in msg:
+        # str() of a SyntaxError appends the location to its text; the text itself is what a traceback shows
+        text = str(ex.msg)
+    if text not in msg:
         fail("C05/message", "message %r does not contain the exception text %r" % (msg, str(ex)), o)
     if len(log) != 2 or n_direct != 1:
         fail("C05/invocations", "raising method invoked %d times for 2 calls" % len(log))
